@@ -14,7 +14,7 @@
 //! loaded wrongly): the keys `graph_loader/edge-id-not-row-accepted`, `…/vertex-id-not-row-accepted`,
 //! `edge_loader/missing-vertex-accepted`, `graph_loader/scan-decides-gzip-by-extension` and
 //! `…/scan-misses-cr-line-endings` belong to repaired defects (corpus W1-W7) and fire again on a
-//! regression; `graph_loader/endpoint-beyond-vertex-rows-accepted` (W8, W9) is still open.
+//! regression, and so does `graph_loader/endpoint-beyond-vertex-rows-accepted` (W8, W9; /repo c9969cf).
 use crate::ctx::{fbits, Ctx};
 use crate::rng::Rng;
 use routee_compass_core::algorithm::search::direction::Direction;
@@ -939,7 +939,7 @@ fn corpus() -> Vec<Case> {
     // --- witnesses of the findings: files that do not describe a network.  W1-W5 were accepted silently
     // and are rejected with a DatasetError since /repo 0316a94 and c6cac08; W6 was loaded with empty
     // adjacency and is rejected since 0316a94; W7 was loaded with empty adjacency and loads correctly
-    // since 12d5de8; W8 and W9 are still accepted.  The oracle keys are unchanged, so a regression of a
+    // since 12d5de8; W8 and W9 were accepted and are rejected since c9969cf.  The oracle keys are unchanged, so a regression of a
     // repair is reported under the key of the original finding. ---
     // W1: two edges listed in the reverse order of their ids
     out.push(Case {
